@@ -43,10 +43,16 @@ def task_group(pr, repo):
     G = repo.cls('propka.group.Group')
     Dt = repo.cls('propka.determinant.Determinant')
     for reference in ('neutral', 'low-pH'):
-        for qsign in (1, -1):
-            def thunk(ex, ctx, reference=reference, qsign=qsign):
+        for qsign in (1, -1, 2, -2):
+            # qsign +-2: the same charge, but the group is 'discarded due to coupling' in the report (it still titrates in the
+            # charge curves, so it must still contribute here)
+            coupled = abs(qsign) == 2
+            qsign = qsign // abs(qsign)
+
+            def thunk(ex, ctx, reference=reference, qsign=qsign, coupled=coupled):
                 ds = [record('d%d' % i, Dt, value=R('dv%d' % i)) for i in range(2)]
                 g = record('g', G, titratable=True, charge=float(qsign), pka_value=R('pka'), model_pka=R('pkm'),
+                           coupled_titrating_group=(record('partner', G) if coupled else None),
                            determinants={'sidechain': [], 'backbone': [], 'coulomb': ds})
                 ph1, ph2 = R('ph1'), R('ph2')
                 r1 = ex.call_function(fi, [None], {'ph': ph1, 'reference': reference}, self_obj=g)
@@ -54,9 +60,9 @@ def task_group(pr, repo):
                 pka, pkm = g.attrs['pka_value'], g.attrs['model_pka']
                 d1 = Lf(ctx, ph1 - pka) - Lf(ctx, ph1 - pkm)
                 d2 = Lf(ctx, ph2 - pka) - Lf(ctx, ph2 - pkm)
-                ctx.oblige('FE[%s, q=%+d]: dG(pH) = C - 1.36*(L(pH-pKa) - L(pH-pKm)) with C independent of pH' % (reference, qsign),
+                ctx.oblige('FE[%s, q=%+d%s]: dG(pH) = C - 1.36*(L(pH-pKa) - L(pH-pKm)) with C independent of pH' % (reference, qsign, ', coupled' if coupled else ''),
                            r1 + K136() * d1 == r2 + K136() * d2)
-                ctx.oblige('vacuity guard FE[%s,%+d]' % (reference, qsign), r1 == r2 + 1, kind='aux', meta={'expect': 'refuted'})
+                ctx.oblige('vacuity guard FE[%s,%+d,%s]' % (reference, qsign, coupled), r1 == r2 + 1, kind='aux', meta={'expect': 'refuted'})
             pr.explore(ex, thunk, GF)
 
     def t_nontit(ex, ctx):
@@ -271,6 +277,52 @@ def task_section(pr, repo, wstep, wstart):
     pr.explore(ex, thunk, SEC + ' step %s' % wstep)
 
 
+def task_write_pka(pr, repo):
+    """The written file uses the requested grid and window: argument plumbing of write_pka and of the two profile sections."""
+    ex = Executor(repo)
+    pr.under_contract(repo.func('propka.output.write_pka'))
+    seen = {}
+
+    def t_sections(ex, ctx):
+        opts = record('options', None, grid=(R('g0'), R('g1'), R('g2')), window=(R('w0'), R('w1'), R('w2')))
+        mol = record('mol', None, options=opts, name='x')
+        seen.clear()
+        ex.contracts[PF] = lambda ex, ctx_, fi_, a, k, so: seen.setdefault('fold', k) and ([], [None, None], [None, None], [None, None])
+        ex.contracts['propka.molecular_container.MolecularContainer.get_charge_profile'] = lambda ex, ctx_, fi_, a, k, so: seen.setdefault('charge', k) and []
+        ex.contracts['propka.molecular_container.MolecularContainer.get_pi'] = lambda ex, ctx_, fi_, a, k, so: (R('pf'), R('pu'))
+        ex.contracts['propka.output.get_the_line'] = lambda *a: '-'
+        mol.cls = repo.cls('propka.molecular_container.MolecularContainer')
+        ex.call_function(repo.func(SEC), [mol], {'conformation': 'AVR', 'reference': 'neutral', 'window': opts.attrs['window']})
+        ex.call_function(repo.func('propka.output.get_charge_profile_section'), [mol], {'conformation': 'AVR'})
+        ctx.oblige('GW: both profile sections compute their profile on the requested grid (options.grid), for the conformation and '
+                   'reference they are asked for',
+                   seen.get('fold', {}).get('grid') is opts.attrs['grid'] and seen.get('charge', {}).get('grid') is opts.attrs['grid']
+                   and seen['fold'].get('conformation') == 'AVR' and seen['fold'].get('reference') == 'neutral'
+                   and seen['charge'].get('conformation') == 'AVR')
+    pr.explore(ex, t_sections, 'profile sections: grid plumbing')
+
+    def t_write(ex, ctx):
+        opts = record('options', None, grid=(R('g0'), R('g1'), R('g2')), window=(R('w0'), R('w1'), R('w2')))
+        mol = record('mol', None, options=opts, name='x')
+        calls = {}
+        for n in ('get_propka_header', 'get_references_header', 'get_warning_header', 'get_the_line'):
+            ex.contracts['propka.output.' + n] = lambda *a: 'H'
+        for n in ('get_determinant_section', 'get_summary_section'):
+            ex.contracts['propka.output.' + n] = (lambda n: lambda ex, ctx_, fi_, a, k, so: calls.setdefault(n, (a, k)) and 'S')(n)
+        ex.contracts[SEC] = lambda ex, ctx_, fi_, a, k, so: calls.setdefault('fold', (a, k)) and 'F'
+        ex.contracts['propka.output.get_charge_profile_section'] = lambda ex, ctx_, fi_, a, k, so: calls.setdefault('charge', (a, k)) and 'C'
+        ex.call_function(repo.func('propka.output.write_pka'), [mol, record('P', None)], {'filename': 'x.pka', 'conformation': 'AVR',
+                                                                                           'reference': 'low-pH', 'verbose': False})
+        f, c = calls.get('fold'), calls.get('charge')
+        written = [e for e in ctx.events if e[0] == 'write_text']
+        ctx.oblige('GW: write_pka prints the folding profile for the requested window, conformation and reference, the charge profile '
+                   'for the same conformation, and writes one file',
+                   f is not None and c is not None and f[1].get('window') is opts.attrs['window'] and f[1].get('conformation') == 'AVR'
+                   and f[1].get('reference') == 'low-pH' and c[1].get('conformation') == 'AVR' and f[0][0] is mol and c[0][0] is mol
+                   and len(written) == 1)
+    pr.explore(ex, t_write, 'write_pka plumbing')
+
+
 def _round_builtin():
     from pyvc.builtins_model import BUILTINS
     return BUILTINS['round']
@@ -290,7 +342,8 @@ def run(pr, repo):
                      force=(pr.tier == 'thorough'))
     from . import C09
     # 'the same charge curves that are reported': the charge sums range over exactly the titratable groups (C09-CC)
-    tasks = [(task_group, ()), (task_container, ()), (task_profile, ()), (task_grid, ()), (C09.task_container_charge, ())]
+    tasks = [(task_group, ()), (task_container, ()), (task_profile, ()), (task_grid, ()), (C09.task_container_charge, ()),
+             (task_write_pka, ())]
     steps = [(1.0, 0.0), (2.0, 0.0), (0.5, 0.5), (1.5, 1.0)] if pr.tier == 'quick' else \
         [(1.0, 0.0), (2.0, 0.0), (0.5, 0.5), (1.5, 1.0), (0.1, 0.6), (0.25, 0.0), (3.0, 2.0), (0.7, 0.0)]
     for st, w0 in steps:
